@@ -47,8 +47,9 @@ def _child(fn, item, limit, conn, mem_gb):
         os._exit(0)
 
 
-def pool_map(fn, items, procs=None, limit=900, progress=None, mem_gb=6):
-    """fn must be a module-level function; results as a list of (item, result, secs) in completion order"""
+def pool_map(fn, items, procs=None, limit=900, progress=None, mem_gb=6, deadline=None):
+    """fn must be a module-level function; results as a list of (item, result, secs) in completion order.
+    deadline (absolute time): tasks not started by then are not started (crash record with timeout=True: undecided)"""
     procs = procs or int(os.environ.get('VERIF_PROCS') or min(16, os.cpu_count() or 4))
     ctx = mp.get_context('fork')
     todo = list(items)[::-1]
@@ -62,6 +63,13 @@ def pool_map(fn, items, procs=None, limit=900, progress=None, mem_gb=6):
         if progress:
             progress(r)
     while todo or running:
+        if deadline is not None and todo and time.time() > deadline:
+            for item in todo[::-1]:
+                r = (item, dict(crash='not started: time limit of the whole check', timeout=True), 0.0)
+                out.append(r)
+                if progress:
+                    progress(r)
+            todo = []
         while todo and len(running) < procs:
             item = todo.pop()
             parent, child = ctx.Pipe(duplex=False)
